@@ -3,6 +3,7 @@ import FitProps.BitsLemmas
 import FitProps.AccumLemmas
 import FitProps.ExpandLemmas
 import FitModel.Generated.ProfileArith
+import FitModel.ExpandSpec
 /-!
 # C05 — Expanded component fields carry exactly the value of their source bits
 
@@ -14,7 +15,7 @@ one natural number).
 After the repair of F07 (/repo 1e2d662) the value statements hold in full for every component row of the
 regenerated profile (`C05_value_exact`, `C05_value_within_one`).
 
-PROPERTY THEOREMS (audited by ./check): C05_pull_refines, C05_pull_in_order, C05_store_of_value, C05_accumulate_total,
+PROPERTY THEOREMS (audited by ./check): C05_pull_refines, C05_pull_in_order, C05_store_of_value, C05_accumulate_total_partial,
 C05_rows_in_range, C05_profile_depth, C05_value_exact, C05_value_within_one, C05_expansion_off, C05_untouched, C05_on_minus_expanded,
 C05_F07_witness_fixed
 -/
@@ -56,11 +57,22 @@ theorem C05_store_of_value (v : Value.Value) (ws : List Nat) (h : Fit.Bits.makeB
 
 /-! ### accumulation -/
 
-/-- **accumulate_total.** A counter of `w ≤ 32` bits with true totals `t₀ ≤ t₁ ≤ …` (each step shorter than its
-period 2^w) is observed modulo 2^w. Starting from a table that does not hold the key (a new sequence, or after
-`Reset`), the i-th `Accumulate` returns `(t₀ mod 2^w) + (tᵢ − t₀)` in uint32 arithmetic: the running total that
-the wrapping counter represents. -/
-theorem C05_accumulate_total (w : Nat) (hw : w ≤ 32) (a : Fit.Accum.Acc) (m f t0 : Nat) (ts : List Nat)
+/-- the full statement about accumulation (OPEN: KF-C05-2): over every history of messages of one sequence, every
+accumulating destination's expanded value is the running total of the specification (`ExpandSpec.specSeq`: the total a
+wire value of the destination seeds, converted exactly into the component's units, advanced by the wrapping-counter
+delta of every sample). It is FALSE on the pinned tree: `decodeFields` collects the wire value of record.distance in
+1/100 m and `expandComponents` then accumulates compressed_speed_distance samples counted in 1/16 m on top of it
+(witness: corpus/expand.txt, 641000 instead of 103400). -/
+def C05_accumulate_total_full : Prop :=
+  ∀ ms out, Fit.ExpandSpec.specSeq componentValue Fit.Gen.PA.mesgs ms = some out →
+    decodeSeq componentValue Fit.Gen.PA.mesgs true ms = out
+
+/-- **accumulate_total (partial: `Accumulate` alone, from a table that does not hold the key).** A counter of `w ≤ 32`
+bits with true totals `t₀ ≤ t₁ ≤ …` (each step shorter than its period 2^w) is observed modulo 2^w. Starting from a
+table that does not hold the key (a new sequence, or after `Reset`; in particular NO wire value of the destination was
+collected — the class of KF-C05-2 is excluded by `habs`), the i-th `Accumulate` returns `(t₀ mod 2^w) + (tᵢ − t₀)` in
+uint32 arithmetic: the running total that the wrapping counter represents. -/
+theorem C05_accumulate_total_partial (w : Nat) (hw : w ≤ 32) (a : Fit.Accum.Acc) (m f t0 : Nat) (ts : List Nat)
     (habs : Fit.Accum.lookup a m f = none) (hsteps : Fit.Accum.Steps w t0 ts) :
     (Fit.Accum.runAcc a m f w ((t0 :: ts).map (· % 2 ^ w))).1 =
       (t0 :: ts).map fun t => (t0 % 2 ^ w + (t - t0)) % Fit.Accum.U32 :=
